@@ -32,3 +32,19 @@ package api //nolint:revive
 //@   assert-call absolutePathInside: called(absolutePathInside) == 2 ==> called(Encode) == 1 && candidate == resultof(Encode)
 //@   assert-call os.Remove: called(os.Remove) == 1 && called(Encode) == 1 && called(time.Parse) == 1 && resultof(time.Parse, 1) == nil && called(absolutePathInside) == 2 && resultof(absolutePathInside, 1) == nil && name == resultof(absolutePathInside, 0)
 //@   assert-call strings.ReplaceAll: old == "%path" ==> validName(new) || has(c.Paths, new)
+
+// C07: the configuration view returned by the Control API carries no password: every internal user's
+// password and every deprecated publish/read password (path defaults and every path) is empty or the placeholder.
+
+//@ func redactCredentials
+//@   property C07
+//@   def red(x conf.Credential) bool = x == "" || x == conf.Credential(redactedCredential)
+//@   loop 1 invariant 0 <= _i && _i <= len(c.AuthInternalUsers) && c != nil && c == resultof(Clone) && forall(k, 0, _i, red(c.AuthInternalUsers[k].Pass))
+//@   loop 2 invariant c != nil && c == resultof(Clone) && forall(k, 0, len(c.AuthInternalUsers), red(c.AuthInternalUsers[k].Pass))
+//@   loop 2 invariant (c.PathDefaults.PublishPass == nil || red(*c.PathDefaults.PublishPass)) && (c.PathDefaults.ReadPass == nil || red(*c.PathDefaults.ReadPass))
+//@   loop 2 invariant forall(n, string, visited(c.Paths, n) && has(c.Paths, n) ==> (c.Paths[n].PublishPass == nil || red(*c.Paths[n].PublishPass)) && (c.Paths[n].ReadPass == nil || red(*c.Paths[n].ReadPass)))
+//@   assert-call Clone: true
+//@   ensures [view-is-the-clone] result == resultof(Clone) && called(Clone) == 1
+//@   ensures [internal-user-passwords-redacted] forall(k, 0, len(result.AuthInternalUsers), red(result.AuthInternalUsers[k].Pass))
+//@   ensures [path-defaults-passwords-redacted] (result.PathDefaults.PublishPass == nil || red(*result.PathDefaults.PublishPass)) && (result.PathDefaults.ReadPass == nil || red(*result.PathDefaults.ReadPass))
+//@   ensures [path-passwords-redacted] forall(n, string, has(result.Paths, n) ==> (result.Paths[n].PublishPass == nil || red(*result.Paths[n].PublishPass)) && (result.Paths[n].ReadPass == nil || red(*result.Paths[n].ReadPass)))
